@@ -118,6 +118,23 @@ for _n in c01.TABLE:
     _mk_ew(_n)
 
 
+# the piecewise functions AT their kink / jump (base point exactly 0, non-zero slopes): the zeroth coefficient is NumPy's value at
+# the zeroth coefficient (sign(0) = 0, |0| = 0) whatever the higher coefficients and their number; not differentiable there
+def _gen_kink(rng, D, P, tier):
+    s = _shape(rng, tier) or (2,)
+    x = rand_coeffs(rng, (D, P) + s, -1, 1)
+    x[0] = c01.gen_x0(rng, 'nz', (P,) + s, False)
+    flat = x[0].reshape(P, -1)
+    flat[:, 0] = 0.0
+    if D > 1:
+        x[1].reshape(P, -1)[:, 0] = rng.choice([1.5, -0.75])          # a definite slope through the kink
+    return [U(x)]
+
+
+op('sign:kink', _gen_kink, lambda a: algopy.sign(a[0]), lambda z: np.sign(z[0]), tags=('elementwise', 'kink'))
+op('absolute:kink', _gen_kink, lambda a: algopy.absolute(a[0]), lambda z: np.abs(z[0]), tags=('elementwise', 'kink'))
+
+
 # arithmetic with every operand kind
 def _mk_bin(sym, fn):
     def gen_uu(rng, D, P, tier):
@@ -383,6 +400,16 @@ def _gen_sum_axis(rng, D, P, tier):
     return [U(rand_coeffs(rng, (D, P) + s, -2, 2)), Kp(rng.randint(-len(s), len(s) - 1))]
 
 
+def _gen_sum_axes(rng, D, P, tier):
+    """a TUPLE of axes, non-negative and negative entries mixed (distinct array shapes per axis, so that a wrong axis shows in the shape)"""
+    s = tuple(rng.sample([1, 2, 3, 4], rng.randint(1, 3)))
+    k = rng.randint(1, len(s))
+    axes = rng.sample(range(len(s)), k)
+    axes = [a - len(s) if rng.random() < 0.6 else a for a in axes]
+    return [U(rand_coeffs(rng, (D, P) + s, -2, 2)), Kp(axes)]
+
+
+op('sum_axes', _gen_sum_axes, lambda a: algopy.sum(a[0], axis=tuple(a[1])), lambda z: np.sum(z[0], axis=tuple(z[1])), tags=('shape',))
 op('sum_axis', _gen_sum_axis, lambda a: algopy.sum(a[0], axis=a[1]), lambda z: np.sum(z[0], axis=z[1]), tags=('shape',))
 op('prod', lambda rng, D, P, t: [U(rand_coeffs(rng, (D, P, rng.randint(1, 4)), -2, 2))],
    lambda a: algopy.prod(a[0]), lambda z: np.prod(z[0]), tags=('shape',))
